@@ -38,12 +38,12 @@ ASSUMPTIONS = ["'unloading has completed' = the awaitable returned by overlay.un
                "the endpoint itself stays open (other overlays may use it); only the overlay's own sockets must be closed"]
 REACH = ["unload_with_pending_tasks", "unload_with_open_exit_transports", "unload_with_outstanding_caches", "late_datagrams_delivered",
          "register_after_unload_refused", "tm_duplicate_name_refused", "tm_replace_ordered", "tm_slow_cleanup", "scenario:tunnel", "scenario:dht",
-         "scenario:attestation", "scenario:identity", "scenario:multi", "scenario:service", "scenario:dhtcrawl",
+         "scenario:attestation", "scenario:identity", "scenario:multi", "scenario:service", "scenario:dhtcrawl", "scenario:bcast", "create_sent_to_overlay_being_unloaded",
          "script_operation_abandoned_after_unload"]
 
-SCN = ["community", "discovery", "dht", "dhtdiscovery", "tunnel", "hidden", "pex", "attestation", "identity", "multi", "dhtcrawl",
+SCN = ["community", "bcast", "discovery", "dht", "dhtdiscovery", "tunnel", "hidden", "pex", "attestation", "identity", "multi", "dhtcrawl",
        "service"]
-STEPS = {"community": 5, "discovery": 3, "dht": 5, "dhtdiscovery": 7, "tunnel": 5, "hidden": 5, "pex": 5, "attestation": 3,
+STEPS = {"community": 5, "bcast": 7, "discovery": 3, "dht": 5, "dhtdiscovery": 7, "tunnel": 5, "hidden": 5, "pex": 5, "attestation": 3,
          "identity": 3, "multi": 8, "dhtcrawl": 3, "service": 6}
 
 
@@ -318,6 +318,39 @@ def execute(case: dict) -> dict:  # noqa: C901, PLR0915
                           f"{pkt.data[22] if len(pkt.data) > 22 else None}, label {pkt.label}) {loop.time() - st['t']:.2f} s after unload")
         net.on_send.append(on_send)
 
+        async def poke_during_unload(vov) -> None:  # noqa: ANN001
+            from ipv8.peer import Peer
+            helper = None
+            for n in nodes:
+                if n is victim or n.name in loop.dead:
+                    continue
+                cand = [o for o in getattr(n, "ovs", {"only": getattr(n, "ov", None)}).values()
+                        if o is not None and type(o) is type(vov) and hasattr(o, "create_circuit")]
+                if cand:
+                    helper, hov = n, cand[0]
+                    break
+            if helper is None:
+                return
+            await asyncio.sleep(0.3)
+            if st["unloaded"]:
+                return
+            vp = Peer(vov.my_peer.public_key.key_to_bin(), victim.address)
+            try:
+                circ = helper.call(hov.create_circuit, 1, required_exit=vp)
+            except Exception:  # noqa: BLE001
+                return
+            world.probe("create_sent_to_overlay_being_unloaded")
+            for _ in range(15):
+                await asyncio.sleep(0.2)
+                if circ is None or circ.state == "READY" or st["unloaded"]:
+                    break
+            if circ is not None and circ.state == "READY":
+                world.probe("circuit_joined_during_unload")
+                try:
+                    helper.call(hov.send_data, circ.hop.address, circ.circuit_id, ("9.9.9.9", 7000), ("0.0.0.0", 0), b"d5:helloe")
+                except Exception:  # noqa: BLE001, S110
+                    pass
+
         async def do_unload() -> None:
             if st["unloaded"] or st.get("unloading") or victim.name in loop.dead:
                 return
@@ -331,6 +364,12 @@ def execute(case: dict) -> dict:  # noqa: C901, PLR0915
             if any(getattr(ov, "request_cache", None) is not None and ov.request_cache._identifiers for ov in ovs):  # noqa: SLF001
                 world.probe("unload_with_outstanding_caches")
             c.nontrivial(f"{case['scenario']}/{case['node']}/{case['step']}/{bool(pend)}/{bool(opent)}")
+            pokers = []
+            for ov in ovs:
+                if hasattr(ov, "exit_sockets"):
+                    # while a tunnel overlay is being unloaded (it waits remove_tunnel_delay for its tunnels to go), another peer asks
+                    # it to join a new circuit and sends data into it
+                    pokers.append(inner_call(asyncio.ensure_future, poke_during_unload(ov)))
             for ov in ovs:
                 if hasattr(victim, "unload_overlay"):
                     await inner_acall(victim.unload_overlay, ov)      # ipv8_service.IPv8.unload_overlay
@@ -360,7 +399,8 @@ def execute(case: dict) -> dict:  # noqa: C901, PLR0915
                         c.violate("no_listener", f"listener_left_after_unload:{what}",
                                   f"{when}: {what} is still registered on the endpoint of {victim.name}")
             for t in net.all_transports:
-                if t.owner == victim.name and t.port != victim.port and not t.closed and any(hasattr(o, "exit_sockets") for o in ovs):
+                if t.owner == victim.name and t.port != victim.port and not t.closed and (
+                        any(hasattr(o, "exit_sockets") for o in ovs) or case["scenario"] not in ("multi", "service")):
                     c.violate("sockets_released", f"transport_left_open_after_unload:{type(ovs[0]).__name__}",
                               f"{when}: a socket opened by the overlay (port {t.port}) is still open")
                     break
